@@ -38,6 +38,7 @@ from .values import (
     CallbackVal,
     DObj,
     ElemRef,
+    ExtObj,
     Frame,
     Func,
     LObj,
@@ -159,7 +160,7 @@ class LoopSpec:
                 recv = x.target
             if isinstance(recv, ast.Name) and recv.id in vars and recv.id not in names:
                 v = vars[recv.id]
-                if isinstance(v, Ref) and v.oid not in old_heap and isinstance(path.obj(v), (LObj, DObj, BAObj)):
+                if isinstance(v, Ref) and v.oid not in old_heap and isinstance(path.obj(v), (LObj, DObj, BAObj, ExtObj)):
                     if recv.id not in self.locals_t:
                         raise Unsupported(f'loop mutates the local container {recv.id!r} in place: declare its type in loop_locals')
                     names.add(recv.id)
@@ -343,6 +344,8 @@ class Config:
             return path.alloc(Obj(cls, fields, mdl))
         if isinstance(t, C.Opaque):
             return path.fresh_sym(('opq', t.tag), hint)
+        if isinstance(t, C.ExtT):
+            return t.fresh(self, path, hint)
         if isinstance(t, C.Callback):
             eff = self.spec_func(t.effect) if t.effect is not None else None
             return CallbackVal(t.name, eff, t.returns, t.raises)
@@ -398,6 +401,9 @@ class Config:
                 return v
             if isinstance(o, LObj) and o.items is not None and not o.items:
                 raise Unsupported(f'loop local {hint}: list needs a declared type (loop_locals)')
+            if isinstance(o, ExtObj):
+                path.wobj(v).ext_havoc(path, v, hint)
+                return v
             return v  # objects keep identity; their fields are governed by modifies
         if v is None or isinstance(v, (str, OpaqueStr, Unknown)):
             return v
@@ -486,6 +492,8 @@ class Config:
                         tgt.items = None
                     elif isinstance(ft, C.MapOf) and isinstance(tgt, MObj):
                         self.havoc_map(path, cur, n)
+                    elif isinstance(ft, C.ExtT) and isinstance(tgt, ExtObj):
+                        tgt.ext_havoc(path, cur, n)
                     elif isinstance(ft, C.Event) and isinstance(tgt, Obj):
                         tgt.fields['_flag'] = path.fresh_sym('bool', n)
                     elif isinstance(ft, C.OneOf) and len(ft.values) > 1:
@@ -503,6 +511,8 @@ class Config:
                     raise Unsupported('havoc of a concrete-spine list (declare ListOf in the class model)')
             elif isinstance(ho, MObj):
                 self.havoc_map(path, Ref(oid), 'map')
+            elif isinstance(ho, ExtObj):
+                ho.ext_havoc(path, Ref(oid), 'ext')
             elif isinstance(ho, DObj):
                 raise Unsupported('havoc of a concrete-spine dict')
 
@@ -760,6 +770,10 @@ class Config:
             elif isinstance(o0, DObj):
                 if o0.items.keys() != o1.items.keys() or any(o0.items[k] is not o1.items[k] for k in o0.items):
                     path.oblige(self.obl_name(path, 'frame', f'dict'), 'frame', False)
+            elif isinstance(o0, ExtObj):
+                same = o0.ext_unchanged(path, o1)
+                if same is not True:
+                    path.oblige(self.obl_name(path, 'frame', type(o0).__name__), 'frame', same)
             elif isinstance(o0, MObj):
                 if not o0.dom.eq(o1.dom):
                     path.oblige(self.obl_name(path, 'frame', 'map.dom'), 'frame', mk_bool(o0.dom == o1.dom))
